@@ -10,6 +10,7 @@ CONSTANTS
   MaxLen = 3
   ListLens = {1}
   WithJP = TRUE
+  WithBroken = FALSE
 INIT Init
 NEXT Next
 VIEW View
